@@ -50,6 +50,9 @@ func (p *ProofWithKey) DecodeBinary(r *io.BinReader) {
 	p.Key = r.ReadVarBytes()
 	sz := r.ReadVarUint()
 	for range sz {
+		if r.Err != nil {
+			return
+		}
 		p.Proof = append(p.Proof, r.ReadVarBytes())
 	}
 }
